@@ -355,4 +355,18 @@ MUTANTS = [
     M("B8-2a-maxmin", ["C14", "C05"], (CP, "CardPair(left.min(right), left.max(right))", "CardPair(left.max(right), left.min(right))"), base="B8-2a"),
     M("B8-2a-minmin", ["C14"], (CP, "CardPair(left.min(right), left.max(right))", "CardPair(left.min(right), left.min(right))"), base="B8-2a"),
     M("B8-2a-raw", ["C14"], (CP, "CardPair(left.min(right), left.max(right))", "CardPair(left, right)"), base="B8-2a"),
+    M("benign-C1-5-fill", ["C02", "C04", "C08"], base="C1-5", benign=True),
+    M("C1-5-fill-from-2", ["C02"], (FE, "self.current_player_indexes[(player_index_to_increment + 1)..].fill(0);", "self.current_player_indexes[(player_index_to_increment + 2)..].fill(0);"), base="C1-5"),
+    M("C1-5-fill-one", ["C02"], (FE, "self.current_player_indexes[(player_index_to_increment + 1)..].fill(0);", "self.current_player_indexes[(player_index_to_increment + 1)..].fill(1);"), base="C1-5"),
+    M("C1-5-no-reset", ["C02"], (FE, "self.current_player_indexes[(player_index_to_increment + 1)..].fill(0);", ""), base="C1-5"),
+    M("benign-C4-3-vec-literal", ["C05", "C10"], base="C4-3", benign=True),
+    M("C4-3-weight-const", ["C05"], (TK, "vec![(card_pair, self.probability)]", "vec![(card_pair, 1.0)]"), base="C4-3"),
+    M("benign-C3-3-ne-continue", ["C01", "C07"], base="C3-3", benign=True),
+    M("C3-3-eq-continue", ["C01"], (MH, "if card.suit() != suit {", "if card.suit() == suit {"), base="C3-3"),
+    M("c02-no-later-reset", ["C02"], (FE, "            for i in (player_index_to_increment + 1)..self.current_player_indexes.len() {\n                self.current_player_indexes[i] = 0;\n            }\n", "")),
+    M("c02-later-reset-from-2", ["C02"], (FE, "for i in (player_index_to_increment + 1)..self.current_player_indexes.len() {", "for i in (player_index_to_increment + 2)..self.current_player_indexes.len() {")),
+    M("c02-river-rollover-no-fill", ["C02"], (FE, "            self.current_river_index += 1;\n            self.current_player_indexes.fill(0);", "            self.current_river_index += 1;")),
+    M("c02-turn-rollover-no-fill", ["C02"], (FE, "        self.current_river_index = self.current_turn_index + 1;\n        self.current_player_indexes.fill(0);", "        self.current_river_index = self.current_turn_index + 1;")),
+    M("c02-rollover-fill-one", ["C02"], (FE, "            self.current_river_index += 1;\n            self.current_player_indexes.fill(0);", "            self.current_river_index += 1;\n            self.current_player_indexes.fill(1);")),
+    M("benign-c02-fill-before-advance", ["C02", "C04"], (FE, "            self.current_river_index += 1;\n            self.current_player_indexes.fill(0);", "            self.current_player_indexes.fill(0);\n            self.current_river_index += 1;"), benign=True),
 ]
